@@ -81,6 +81,13 @@ Definition osm_marshal : osmv -> json := marshal_with objects.
 Definition osm_marshal_legacy : osmv -> json := marshal_with objects_legacy.
 End Marshal.
 
+(* marshalJSON calls of json.Marshal(osm): OSM.MarshalJSON itself, then the elements *)
+Definition sum_calls (t : ty) (l : list val) : Z := fold_right (fun x a => mcalls t x + a) 0%Z l.
+Definition osm_mcalls (o : osmv) : Z :=
+  (1 + sum_calls t_Node (o_nodes o) + sum_calls t_Way (o_ways o) + sum_calls t_Relation (o_relations o)
+   + sum_calls t_Changeset (o_changesets o) + sum_calls t_User (o_users o) + sum_calls t_Note (o_notes o))%Z.
+Definition oo_mcalls (o : option osmv) : Z := match o with Some x => osm_mcalls x | None => 0%Z end.
+
 (* ---- unmarshal ------------------------------------------------------------------------ *)
 
 (* findType *)
